@@ -86,6 +86,7 @@ func typecheck(tree *ast.Tree, importer native.Importer, opts checkerOptions) (m
 		tree.Path = extends.Tree.Path
 		tree.Format = extends.Tree.Format
 		tc.path = extends.Tree.Path
+		tc.scopes.path = extends.Tree.Path
 	}
 
 	// Type check a template file.
